@@ -566,6 +566,7 @@ DIVISORS = [2.0, 4.0, 0.5, -2.0, 2, 8.0, -0.25, 1, 1.0, -1.0, 3.0, 3]
 def gen_history(run, im, nsteps):
     """generate and execute one history on the implementation; returns [(op, reply, snapshot)]"""
     rng = run.rng
+    np = env()["np"]
     grids = [gen_grid(rng) for _ in range(rng.choice([1, 2, 2, 3]))]
     # DECREASING grids: np.interp (sampled signals) has no meaning there, but function-backed and empty signals do -
     # such histories only build function-backed signals
@@ -663,7 +664,7 @@ def gen_history(run, im, nsteps):
                 do(("shift", k, d))
             else:
                 run.count("shift_skipped_inexact_grid")
-        elif decreasing and r < 0.94:
+        elif decreasing and r < 0.945:
             continue
         elif r < 0.915:
             # the SAME object re-gridded repeatedly onto grids that agree in length and end points (and once more
@@ -682,6 +683,43 @@ def gen_history(run, im, nsteps):
                 do(("imul", k, rng.choice([2.0, -1.0, 0.5])))
             do(("withTimes", k, ext(span)))
             run.count("regrid_same_object_repeatedly")
+        elif r < 0.935 and r >= 0.925 and not decreasing:
+            # a function-backed signal plus its own DELAYED copies: g = f.copy(); g.shift(d); g = g.with_times(f.times);
+            # f + g (both orders), sums of several delayed copies, the sum re-gridded.  The components then share the
+            # function object (plain functions survive deepcopy), buffers and filters and differ only in the offset.
+            fs = [i for i, s in enumerate(im.objs) if isinstance(s, S.FunctionSignal) and len(s.times) >= 2
+                  and all(np.diff(s.times) > 0)]
+            plain = [i for i in fs if not any(fn_parts(f)[3] for f in im.objs[i]._functions)]
+            if not fs:
+                continue
+            k = rng.choice(plain or fs)
+            f = im.objs[k]
+            g = [float(x) for x in f.times]
+            dt = g[1] - g[0]
+            grid = ext(g)
+            parts = [k]
+            for _ in range(rng.choice([1, 1, 2])):
+                d = dt * rng.choice([1.0, 2.0, 3.0, 0.25, 0.375, -0.5, 5.0])     # whole samples and sub-sample delays
+                if not all(Fraction(float(t)) + Fraction(d) == Fraction(float(t + d)) for t in g):
+                    continue
+                if not do(("copy", k)).startswith("obj "):
+                    break
+                c = len(im.objs) - 1
+                do(("shift", c, d))
+                rep = do(("withTimes", c, grid))
+                if rep.startswith("obj "):
+                    parts.append(int(rep.split()[1]))
+            if len(parts) >= 2:
+                order = list(parts)
+                if rng.random() < 0.5:
+                    order.reverse()
+                rep = do(("add", ("o", order[0]), ("o", order[1])))
+                for nxt in order[2:]:
+                    if rep.startswith("obj "):
+                        rep = do(("add", ("o", int(rep.split()[1])), ("o", nxt)))
+                if rep.startswith("obj ") and rng.random() < 0.7:
+                    do(("withTimes", int(rep.split()[1]), ext(regrid(rng, g))))
+                run.count("sum_with_own_delayed_copy")
         elif r < 0.925 and not decreasing:
             fs = [i for i, s in enumerate(im.objs) if isinstance(s, S.FunctionSignal) and len(s.times) >= 2]
             if not fs:
@@ -705,7 +743,7 @@ def gen_history(run, im, nsteps):
                         do(("shift", m, 0.5))
                     do(("withTimes", m, ext(regrid(rng, [float(x) for x in im.objs[m].times]))))
                 run.count("empty_left_of_function_backed")
-        elif r < 0.94:
+        elif r < 0.945:
             # mixed history: a FILTERED (and possibly buffered) function-backed signal combined with a sampled
             # signal on the same grid, in both operand orders, then scaled and re-gridded
             # (filters run through an FFT: on grids with offsets of 1e6 and more its round-off, 1e-16 of values of
@@ -1130,6 +1168,19 @@ def rederive(im, op, new):
             fail.append("value type of sum is %s, expected %s" % (vt_name(new), want_vt))
         if list(new.times) != list(a.times):
             fail.append("sum is not on the operands' time grid")
+        if (isinstance(a, S.FunctionSignal) and isinstance(b, S.FunctionSignal) and isinstance(new, S.FunctionSignal)
+                and len(a.times) >= 2 and all(np.diff(a.times) > 0) and "raise" not in (va, vb)):
+            # independent evaluation: re-grid the OPERANDS (each evaluates its own function at t - t0) and add
+            g = [float(x) for x in a.times]
+            mid = np.array(sorted(set(g + [(x + y) / 2 for x, y in zip(g, g[1:])] + [g[-1] + (g[1] - g[0]) / 4])))
+            with warnings.catch_warnings():
+                warnings.simplefilter("ignore")
+                got = [float(x) for x in new.with_times(mid).values]
+                wa = [float(x) for x in a.with_times(mid).values]
+                wb = [float(x) for x in b.with_times(mid).values]
+            if not all(near(x, Fraction(p) + Fraction(q)) for x, p, q in zip(got, wa, wb)):
+                fail.append("re-gridding the sum of two function-backed signals does not re-evaluate both components: "
+                            "%s vs %s + %s" % (got, wa, wb))
         fb = [x for x in (a, b) if isinstance(x, S.FunctionSignal)]
         if fb and any(isinstance(x, S.EmptySignal) for x in (a, b)):
             # the empty signal is neutral: the sum is still function-backed and re-gridding it re-evaluates exactly
